@@ -79,8 +79,12 @@ Proof.
   destruct st.
   - destruct (N.eqb x GT) eqn:Hg.
     + apply N.eqb_eq in Hg. subst x. reflexivity.
-    + apply andb_true_iff in H. destruct H as [Hc H]. apply negb_true_iff in Hc. rewrite Hc.
-      f_equal. apply IH. exact H.
+    + apply andb_true_iff in H. destruct H as [Hc H].
+      destruct (N.eqb x CR) eqn:Hcr.
+      * cbn [negb orb] in Hc. destruct r as [|y r']; [reflexivity|]. rewrite Hc.
+        pose proof (IH MID H) as Hr. cbn [aseq_out seq_out] in Hr. rewrite Hc in Hr.
+        cbn [seq_out aseq_out]. rewrite Hc. exact Hr.
+      * f_equal. apply IH. exact H.
   - destruct (N.eqb x CR).
     + destruct r as [|y r']; [reflexivity|].
       assert (Hr : aseq_out false MID (y :: r') = seq_out MID (y :: r')) by (apply IH; exact H).
